@@ -24,3 +24,122 @@ def model_check(ctx):
         else:
             ctx.mc('filelock', 'MC_FileLock', cfg + '.cfg', timeout=1800,
                    require_actions=[a for a in ACTIONS if not (a == 'CloseFail' and cfg == 'FL_shared2')])
+
+
+# ---------------------------------------------------------------------------------------------
+# implementation conformance (code -> spec): recorded executions against FileLock.tla
+import json as _json
+import os as _os
+import re as _re
+import shutil as _shutil
+from concurrent.futures import ThreadPoolExecutor as _TPE
+
+
+def _mode(form, blocking, timeout, deft):
+    if form == 'with':
+        return 'block' if deft < 0 else 'timed'
+    if timeout == -2:
+        if not blocking:
+            return 'nb'
+        return 'block' if deft < 0 else 'timed'
+    if timeout < 0:
+        return 'block' if blocking else 'nb'
+    return 'timed'
+
+
+def _prep(sc, r):
+    if sc.get('mode') != 'conc' or sc.get('opcodes'):
+        return None
+    if any(rd.get('nest') for rounds in sc['threads'].values() for rd in rounds):
+        return None
+    cfg = sc['cfg']
+    thr_of = {}
+    ev = []
+    objs_of = {}
+    for e in r['events']:
+        k = e['e']
+        if k in ('Config', 'Tick', 'End', 'Fault', 'Enter', 'RelCall'):
+            continue
+        if k not in ('AcqCall', 'AcqRet', 'Exit', 'RelRet') or 'st' not in e:
+            return None
+        d = {'e': k, 'st': e['st']}
+        if k == 'AcqCall':
+            thr_of[e['h']] = e['thr']
+            d['obj'] = 'o%d' % e['o']
+            d['mode'] = _mode(e['form'], e['blocking'], e['timeout'], cfg['deftimeout'][e['o'] - 1])
+            objs_of.setdefault(e['thr'], set()).add('o%d' % e['o'])
+        if k == 'AcqRet':
+            d['res'] = 'true' if e['res'] == 'true' else 'false'
+        d['thr'] = thr_of[e['h']]
+        ev.append(d)
+    threads = sorted(sc['threads'])
+    for t in threads:
+        objs_of.setdefault(t, {'o1'})
+    return {'events': ev, 'threads': threads, 'objs': ['o%d' % (i + 1) for i in range(len(cfg['reentrant']))],
+            'objs_of': {t: sorted(v) for t, v in objs_of.items()},
+            'rounds': max(len(v) for v in sc['threads'].values()),
+            'faults': sum(1 for e in r['events'] if e['e'] == 'Fault'),
+            'reentrant': bool(cfg['reentrant'][0])}
+
+
+def _one(p):
+    from harness import tlc
+    q = lambda x: '"%s"' % x
+    objof = ' @@ '.join('(%s :> {%s})' % (q(t), ', '.join(q(o) for o in p['objs_of'][t])) for t in p['threads'])
+    procof = ' @@ '.join('(%s :> "p1")' % q(t) for t in p['threads'])
+    mod = ('---- MODULE MC_FileLockConform ----\nEXTENDS FileLockConform\nCThreads == {%s}\nCObjs == {%s}\nCObjOf == %s\nCProcOf == %s\n====\n'
+           % (', '.join(q(t) for t in p['threads']), ', '.join(q(o) for o in p['objs']), objof, procof))
+    cfg = ('INIT CInit\nNEXT CNext\nCONSTANTS\n Threads <- CThreads\n Objs <- CObjs\n ObjOf <- CObjOf\n ProcOf <- CProcOf\n Reentrant = %s\n Rounds = %d\n'
+           ' Crashes = FALSE\n Nest = FALSE\n Faults = %d\nCONSTRAINT Reached\nCONSTRAINT NotYetAccepted\nCHECK_DEADLOCK FALSE\n'
+           % ('TRUE' if p['reentrant'] else 'FALSE', p['rounds'], p['faults']))
+    work = tlc.scratch('flconf-')
+    try:
+        tf = _os.path.join(work, 'trace.json')
+        with open(tf, 'w') as f:
+            _json.dump(p['events'], f)
+        out, dt, rc = tlc.run_tlc('filelock', 'MC_FileLockConform', 'MC_FileLockConform.cfg', workers=1,
+                                  timeout=int(_os.environ.get('CONF_TIMEOUT', '90')), env={'TRACE_FILE': tf},
+                                  cfg_text=cfg, extra_files={'MC_FileLockConform.tla': mod},
+                                  jvm=['-Dtlc2.tool.queue.IStateQueue=StateDeque'], heap='1g')
+    finally:
+        _shutil.rmtree(work, ignore_errors=True)
+    r = tlc.parse_mc(out)
+    best = 1
+    for m in _re.finditer(r'<< ?"REACHED", 1, (\d+), (\d+) ?>>', _re.sub(r'\s+', ' ', out)):
+        best = max(best, int(m.group(1)))
+    err = r['error']
+    return best, len(p['events']) + 1, err, r['distinct'], r['generated'], (out[out.find('Error:'):][:900] if err and err != 'timeout' else '')
+
+
+def conformance(ctx, executed, limit=40):
+    todo = []
+    for sc, r, v in executed:
+        if r.get('status') != 'ok' or any(x is not None for x in v.values()):
+            continue
+        p = _prep(sc, r)
+        if p is not None and 2 <= len(p['events']) <= 40 and len(p['threads']) <= 3:
+            todo.append(p)
+    todo.sort(key=lambda p: len(p['events']))
+    todo = todo[:limit]
+    acc = und = 0
+    drift = []
+    with _TPE(8) as ex:
+        for p, (best, n, err, ds, gen, tail) in zip(todo, ex.map(_one, todo)):
+            ctx.cov['states'] += ds
+            ctx.cov['transitions'] += gen
+            if best >= n:
+                acc += 1
+            elif err == 'timeout':
+                und += 1
+            elif err:
+                ctx.notes.append('filelock conformance: TLC error: %s' % (tail,))
+                und += 1
+            else:
+                drift.append({'matched_prefix': best - 1, 'of': n - 1, 'first_unexplained': p['events'][best - 1]})
+    ctx.cov['conformance'] = {'traces_checked': len(todo), 'accepted': acc, 'drift': len(drift), 'undecided': und,
+                              'drift_samples': drift[:3],
+                              'what': 'recorded executions of controlled threads on the real FileLock validated against FileLock.tla: same '
+                                      'observable points per contender, line-level steps silent, projected state (is_locked, counter, '
+                                      'in-process lock owner of every object) compared at every observable point'}
+    ctx.cov['conformance_divergences'] = len(drift)
+    return len(todo), acc, drift
